@@ -1,5 +1,8 @@
 import GV.Model.Header
 import GV.Model.HeaderSym
+import GV.Gen.HeaderFacts
+import GV.Gen.VrfConsts
+import GV.Gen.KesConsts
 /-!
 C40 — Produced headers validate, and tampered ones do not.
 
@@ -25,14 +28,17 @@ def present (tp : Bool) (h : Fields B × B) (prevSlot prevBlockNo : Nat) (prevHa
     prevBlockNo := prevBlockNo, prevHeaderHash := prevHash, nonce := nonce, poolStake := pool,
     totalStake := total, registeredVrfKeyHash := reg }
 
-/-- **validate (build …) = valid.**  Hypotheses: completeness of VRF, KES and Ed25519; the
-    operational certificate is the cold key's signature of (hot key, counter, period); the chain
-    context is the one the header was built for; the KES signer is at the evolution the slot
-    asks for, inside the certificate's window. -/
+/-- **validate (build …) = valid.**  Hypotheses: completeness of VRF, KES and Ed25519 and the
+    output sizes of the primitives (80-byte proofs, 64-byte outputs, 448-byte KES signatures);
+    the operational certificate is the cold key's signature of (hot key, counter, period); the
+    chain context is the one the header was built for; the KES signer is at the evolution the
+    slot asks for, inside the certificate's window.  All other sizes are enforced by `build`. -/
 theorem validate_build
     (hvrf : ∀ sk i, P.vrfVerify (P.vrfPk sk) (P.vrfProve sk i).1 (P.vrfProve sk i).2 i = true)
     (hkes : ∀ sk t m, t < 64 → P.kesVerify (P.kesPk sk) t m (P.kesSign sk t m) = true)
     (hed : ∀ sk m, P.edVerify (P.edPk sk) m (P.edSign sk m) = true)
+    (hlp : ∀ sk i, P.len (P.vrfProve sk i).1 = 80) (hlo : ∀ sk i, P.len (P.vrfProve sk i).2 = 64)
+    (hls : ∀ sk t m, P.len (P.kesSign sk t m) = 448)
     (b : Builder B) (i : BuildIn B) (c : Cfg) (cold : B) (h : Fields B × B)
     (hb : build P b i = .ok h)
     (hmode : c.tpraos = b.tpraos)
@@ -44,28 +50,36 @@ theorem validate_build
     (hwin : b.kesT < c.maxKESEvolutions) (ht : b.kesT < 64) :
     validate P c (present P b.tpraos h prevSlot prevBlockNo (some i.prevHash) i.nonce
       i.poolStake i.totalStake none) = [] := by
-  by_cases hk' : P.kesPk b.kesSk = b.ocHot
-  · by_cases ht0 : i.totalStake = 0
-    · simp [build, hk', ht0] at hb
-    · by_cases hp0 : i.poolStake = 0
-      · simp [build, hk', hp0] at hb
-      · cases hbelow' : P.below (P.vrfProve b.vrfSk (P.mkInput b.tpraos i.slot i.nonce false)).2
-            i.poolStake i.totalStake b.tpraos with
-        | false => simp [build, hk', hbelow'] at hb
-        | true =>
-          simp only [build, hk', ne_eq, not_true_eq_false, if_false, ht0, hp0, hbelow',
-            Bool.not_true, Bool.false_eq_true, or_self, Except.ok.injEq] at hb
-          subst hb
-          have hsub : b.ocPeriod + b.kesT - b.ocPeriod = b.kesT := by omega
-          have hge : ¬ (b.ocPeriod + b.kesT < b.ocPeriod) := by omega
-          have hw : ¬ (b.kesT ≥ c.maxKESEvolutions) := by omega
-          have hs : ¬ (i.slot ≤ prevSlot) := by omega
-          cases htp : b.tpraos <;>
-            simp [validate, present, chkSlot, chkBlockNo, chkPrevHash, chkVrf, chkLeader, chkNonceVrf,
-              chkKesPeriod, chkKesSig, chkOpCert, chkVrfReg, vrfOk, hmode, htp, hvrf, hs, hbn, hspk,
-              hcur, hsub, hge, hw, ht0, ← hk', hkes _ _ _ ht, hoc.1, hoc.2, hed] <;>
-            (rw [htp] at hbelow'; simp [hbelow'])
-  · simp [build, hk'] at hb
+  by_cases hsz : sizesOk P b i = true
+  · by_cases hk' : P.kesPk b.kesSk = b.ocHot
+    · by_cases ht0 : i.totalStake = 0
+      · simp [build, hsz, hk', ht0] at hb
+      · by_cases hp0 : i.poolStake = 0
+        · simp [build, hsz, hk', hp0] at hb
+        · cases hbelow' : P.below (P.vrfProve b.vrfSk (P.mkInput b.tpraos i.slot i.nonce false)).2
+              i.poolStake i.totalStake b.tpraos with
+          | false => simp [build, hsz, hk', hbelow'] at hb
+          | true =>
+            simp only [build, hsz, hk', ne_eq, not_true_eq_false, if_false, ht0, hp0, hbelow',
+              Bool.not_true, Bool.false_eq_true, or_self, Except.ok.injEq] at hb
+            subst hb
+            simp only [sizesOk, Bool.and_eq_true, beq_iff_eq] at hsz
+            obtain ⟨⟨⟨⟨⟨⟨⟨z1, z2⟩, z3⟩, z4⟩, z5⟩, z6⟩, z7⟩, z8⟩ := hsz
+            have hsub : b.ocPeriod + b.kesT - b.ocPeriod = b.kesT := by omega
+            have hge : ¬ (b.ocPeriod + b.kesT < b.ocPeriod) := by omega
+            have hw : ¬ (b.kesT ≥ c.maxKESEvolutions) := by omega
+            have hs : ¬ (i.slot ≤ prevSlot) := by omega
+            have z1' : P.len (P.edPk cold) = 32 := by rw [← hoc.1]; exact z1
+            have z7' : P.len (P.edSign cold (P.signable (P.kesPk b.kesSk) b.ocSeq b.ocPeriod)) = 64 := by
+              rw [hk', ← hoc.2]; exact z7
+            cases htp : b.tpraos <;>
+              simp [validate, present, chkSlot, chkBlockNo, chkPrevHash, chkVrf, chkLeader, chkNonceVrf,
+                chkKesPeriod, chkKesSig, chkOpCert, chkVrfReg, vrfOk, hmode, htp, hvrf, hs, hbn, hspk,
+                hcur, hsub, hge, hw, ht0, ← hk', hkes _ _ _ ht, hoc.1, hoc.2, hed, hlp, hlo, hls,
+                z1', z3, z5, z7', z8] <;>
+              (rw [htp] at hbelow'; simp [hbelow'])
+    · simp [build, hsz, hk'] at hb
+  · simp [build, hsz] at hb
 
 /-- **KES window**: at a KES period outside `[start, start + max)` the header is invalid,
     whatever the signatures are. -/
@@ -95,12 +109,16 @@ theorem valid_kesSig (c : Cfg) (v : VIn B) (h : valid P c v = true) :
   unfold chkKesSig at hk
   by_cases h0 : c.slotsPerKESPeriod = 0
   · simp [h0] at hk
-  · by_cases h1 : v.f.slot / c.slotsPerKESPeriod < v.f.ocPeriod
-    · simp [h0, h1] at hk
-    · refine ⟨h0, by omega, ?_⟩
-      cases hv : P.kesVerify v.f.ocHot (v.f.slot / c.slotsPerKESPeriod - v.f.ocPeriod) v.bodyCbor v.kesSig with
-      | true => rfl
-      | false => simp [h0, h1, hv] at hk
+  · by_cases ha : P.len v.kesSig = 448
+    · by_cases hb : P.len v.f.ocHot = 32
+      · by_cases h1 : v.f.slot / c.slotsPerKESPeriod < v.f.ocPeriod
+        · simp [h0, ha, hb, h1] at hk
+        · refine ⟨h0, by omega, ?_⟩
+          cases hv : P.kesVerify v.f.ocHot (v.f.slot / c.slotsPerKESPeriod - v.f.ocPeriod) v.bodyCbor v.kesSig with
+          | true => rfl
+          | false => simp [h0, ha, hb, h1, hv] at hk
+      · simp [h0, ha, hb] at hk
+    · simp [h0, ha] at hk
 
 theorem valid_opCert (c : Cfg) (v : VIn B) (h : valid P c v = true) :
     P.edVerify v.f.issuer (P.signable v.f.ocHot v.f.ocSeq v.f.ocPeriod) v.f.ocSig = true := by
@@ -111,6 +129,115 @@ theorem valid_opCert (c : Cfg) (v : VIn B) (h : valid P c v = true) :
   cases hv : P.edVerify v.f.issuer (P.signable v.f.ocHot v.f.ocSeq v.f.ocPeriod) v.f.ocSig with
   | true => rfl
   | false => simp [hv] at hk
+
+/-- sizes: a valid header has a 448-byte KES signature, 32-byte hot and issuer keys and a
+    64-byte cold signature -/
+theorem valid_sizes (c : Cfg) (v : VIn B) (h : valid P c v = true) :
+    P.len v.kesSig = 448 ∧ P.len v.f.ocHot = 32 ∧ P.len v.f.issuer = 32 ∧ P.len v.f.ocSig = 64 := by
+  unfold valid validate at h
+  simp only [List.isEmpty_iff, List.append_eq_nil_iff] at h
+  have hk := h.1.1.2
+  have ho := h.1.2
+  unfold chkKesSig at hk
+  unfold chkOpCert at ho
+  refine ⟨?_, ?_, ?_, ?_⟩
+  · by_cases h0 : c.slotsPerKESPeriod = 0
+    · simp [h0] at hk
+    · by_cases ha : P.len v.kesSig = 448
+      · exact ha
+      · simp [h0, ha] at hk
+  · by_cases h0 : c.slotsPerKESPeriod = 0
+    · simp [h0] at hk
+    · by_cases ha : P.len v.kesSig = 448
+      · by_cases hb : P.len v.f.ocHot = 32
+        · exact hb
+        · simp [h0, ha, hb] at hk
+      · simp [h0, ha] at hk
+  · by_cases hi : P.len v.f.issuer = 32
+    · exact hi
+    · simp [hi] at ho
+  · by_cases hi : P.len v.f.ocSig = 64
+    · exact hi
+    · simp [hi] at ho
+
+/-! ### block level (`ledger.VerifyBlock`) -/
+
+/-- **A block assembled around a built header verifies**: given completeness of VRF and KES, the
+    KES signer at the evolution the slot asks for, and body segments that hash to the body hash
+    the builder was given. -/
+theorem verifyBlock_build
+    (hvrf : ∀ sk i, P.vrfVerify (P.vrfPk sk) (P.vrfProve sk i).1 (P.vrfProve sk i).2 i = true)
+    (hkes : ∀ sk t m, t < 64 → P.kesVerify (P.kesPk sk) t m (P.kesSign sk t m) = true)
+    (hls : ∀ sk t m, P.len (P.kesSign sk t m) = 448)
+    (b : Builder B) (i : BuildIn B) (h : Fields B × B) (hb : build P b i = .ok h)
+    (spk : Nat) (hspk : spk ≠ 0) (hcur : i.slot / spk = b.ocPeriod + b.kesT) (ht : b.kesT < 64) :
+    verifyBlock P (present P b.tpraos h 0 0 none i.nonce i.poolStake i.totalStake none)
+      b.tpraos spk i.bodyHash = .ok () := by
+  by_cases hsz : sizesOk P b i = true
+  · by_cases hk' : P.kesPk b.kesSk = b.ocHot
+    · by_cases ht0 : i.totalStake = 0
+      · simp [build, hsz, hk', ht0] at hb
+      · by_cases hp0 : i.poolStake = 0
+        · simp [build, hsz, hk', hp0] at hb
+        · cases hbelow' : P.below (P.vrfProve b.vrfSk (P.mkInput b.tpraos i.slot i.nonce false)).2
+              i.poolStake i.totalStake b.tpraos with
+          | false => simp [build, hsz, hk', hbelow'] at hb
+          | true =>
+            simp only [build, hsz, hk', ne_eq, not_true_eq_false, if_false, ht0, hp0, hbelow',
+              Bool.not_true, Bool.false_eq_true, or_self, Except.ok.injEq] at hb
+            subst hb
+            have hsub : b.ocPeriod + b.kesT - b.ocPeriod = b.kesT := by omega
+            have hge : ¬ (b.ocPeriod + b.kesT < b.ocPeriod) := by omega
+            simp [verifyBlock, ledgerKes, present, hvrf, hspk, hls, hcur, hsub, hge, ← hk',
+              hkes _ _ _ ht]
+    · simp [build, hsz, hk'] at hb
+  · simp [build, hsz] at hb
+
+/-- what an accepted block guarantees: the leader VRF verifies for the header's slot, the KES
+    signature verifies over the header-body bytes in the block at the evolution of the slot, and
+    the body segments in the block hash to the header's body hash. -/
+theorem verifyBlock_sound (v : VIn B) (tp : Bool) (spk : Nat) (segHash : B)
+    (h : verifyBlock P v tp spk segHash = .ok ()) :
+    P.vrfVerify v.f.vrfKey v.f.vrfProof v.f.vrfOut (P.mkInput tp v.f.slot v.nonce false) = true ∧
+    spk ≠ 0 ∧ v.f.ocPeriod ≤ v.f.slot / spk ∧
+    P.kesVerify v.f.ocHot (v.f.slot / spk - v.f.ocPeriod) v.bodyCbor v.kesSig = true ∧
+    v.f.bodyHash = segHash := by
+  unfold verifyBlock at h
+  cases hv : P.vrfVerify v.f.vrfKey v.f.vrfProof v.f.vrfOut (P.mkInput tp v.f.slot v.nonce false) with
+  | false => simp [hv] at h
+  | true =>
+    simp only [hv, Bool.not_true, Bool.false_eq_true, if_false] at h
+    unfold ledgerKes at h
+    by_cases h0 : spk = 0
+    · simp [h0] at h
+    · by_cases ha : P.len v.kesSig = 448
+      · by_cases h1 : v.f.slot / spk < v.f.ocPeriod
+        · simp [h0, ha, h1] at h
+        · cases hk : P.kesVerify v.f.ocHot (v.f.slot / spk - v.f.ocPeriod) v.bodyCbor v.kesSig with
+          | false => simp [h0, ha, h1, hk] at h
+          | true =>
+            by_cases hbh : v.f.bodyHash = segHash
+            · exact ⟨rfl, h0, by omega, rfl, hbh⟩
+            · simp [h0, ha, h1, hk, hbh] at h
+      · simp [h0, ha] at h
+
+/-- **Body-hash binding through the KES-signed header** (symbolic: ideal KES, injective
+    serialisation): a block that keeps the builder's KES signature and is accepted carries the
+    builder's header fields, hence its body segments hash to the body hash the builder signed —
+    a changed body (other bytes, even with the same content) is rejected. -/
+theorem body_bound_through_kes
+    (hbind : ∀ vk t m σ, P.kesVerify vk t m σ = true → ∃ sk, vk = P.kesPk sk ∧ σ = P.kesSign sk t m)
+    (hsinj : ∀ sk t m sk' t' m', P.kesSign sk t m = P.kesSign sk' t' m' → sk = sk' ∧ t = t' ∧ m = m')
+    (hser : ∀ tp f f', P.ser tp f = P.ser tp f' → f = f')
+    (v : VIn B) (tp : Bool) (spk : Nat) (segHash : B) (f0 : Fields B) (sk : B) (t : Nat)
+    (hsig : v.kesSig = P.kesSign sk t (P.ser tp f0)) (hbody : v.bodyCbor = P.ser tp v.f)
+    (h : verifyBlock P v tp spk segHash = .ok ()) :
+    v.f = f0 ∧ segHash = f0.bodyHash := by
+  obtain ⟨_, _, _, hk, hbh⟩ := verifyBlock_sound P v tp spk segHash h
+  obtain ⟨sk', _, hσ⟩ := hbind _ _ _ _ hk
+  rw [hsig, hbody] at hσ
+  have hf := (hser _ _ _ (hsinj _ _ _ _ _ _ hσ).2.2).symm
+  exact ⟨hf, by rw [← hbh, hf]⟩
 
 /-- **Tampering with any signed field fails** (symbolic: ideal KES — only genuine signatures
     verify and they bind key, evolution and message — and an injective serialisation).  The
@@ -173,6 +300,50 @@ theorem opcert_binds
   obtain ⟨a, b, d⟩ := hsg _ _ _ _ _ _ this
   exact ⟨a.symm, b.symm, d.symm⟩
 
+/-! ### regenerated source facts
+
+The order of the ten checks of `ValidateHeader`, the comparisons of the window / ordering checks,
+every byte-length comparison of validator and builder and the size constants are read off
+consensus/validate.go, consensus/block.go, ledger/verify_kes.go, vrf and kes on every run
+(extract/facts_g8.go); the model was written against exactly these. -/
+theorem source_facts :
+    GV.Gen.HeaderFacts.checks =
+      ["validateSlotOrdering", "validateBlockNumber", "validatePrevHash", "validateVRFProof",
+       "validateLeadership", "validateNonceVRFProof", "validateKESPeriod", "validateKESSignature",
+       "validateOpCertSignature", "validateVRFKeyRegistration"] ∧
+    GV.Gen.HeaderFacts.kesPeriodConds =
+      ["v.slotsPerKESPeriod == 0", "currentKESPeriod < opCertKESPeriod",
+       "evolutionPeriod >= v.maxKESEvolutions"] ∧
+    GV.Gen.HeaderFacts.slotConds = ["input.Slot <= input.PrevSlot"] ∧
+    GV.Gen.HeaderFacts.blockNoConds = ["input.BlockNumber != expectedBlockNumber"] ∧
+    GV.Gen.HeaderFacts.prevHashConds =
+      ["input.BlockNumber > 0 && len(input.PrevHeaderHash) == 0",
+       "len(input.PrevHeaderHash) > 0 && !bytes.Equal(input.PrevHash, input.PrevHeaderHash)"] ∧
+    GV.Gen.HeaderFacts.kesComponentsConds =
+      ["slotsPerKesPeriod == 0", "len(signature) != kes.CardanoKesSignatureSize",
+       "currentKesPeriod < kesPeriod"] ∧
+    GV.Gen.HeaderFacts.verifyCertifiedVRF_lens =
+      [("epochNonce", "!=", "32"), ("vrfKey", "!=", "vrf.PublicKeySize"),
+       ("proof", "!=", "vrf.ProofSize"), ("output", "!=", "vrf.OutputSize")] ∧
+    GV.Gen.HeaderFacts.validateKESSignature_lens =
+      [("input.HeaderBodyCbor", "==", "0"), ("input.KesSignature", "!=", "kes.CardanoKesSignatureSize"),
+       ("input.OpCertHotVkey", "!=", "kes.PublicKeySize")] ∧
+    GV.Gen.HeaderFacts.validateOpCertSignature_lens =
+      [("input.IssuerVkey", "==", "0"), ("input.IssuerVkey", "!=", "ed25519.PublicKeySize"),
+       ("input.OpCertSignature", "!=", "ed25519.SignatureSize")] ∧
+    GV.Gen.HeaderFacts.validateVRFKeyRegistration_lens =
+      [("input.RegisteredVrfKeyHash", "==", "0"), ("input.VrfKey", "!=", "vrf.PublicKeySize")] ∧
+    GV.Gen.HeaderFacts.buildHeader_lens =
+      [("input.PrevHash", "==", "0"), ("input.EpochNonce", "==", "0"), ("input.BlockBodyHash", "==", "0"),
+       ("b.issuerVkey", "!=", "32"), ("input.PrevHash", "!=", "32"), ("input.EpochNonce", "!=", "32"),
+       ("input.BlockBodyHash", "!=", "32"), ("vrfPubKey", "!=", "vrf.PublicKeySize"),
+       ("b.opCert.HotVkey", "!=", "32"), ("b.opCert.Signature", "!=", "64"), ("kesPublicKey", "!=", "32"),
+       ("nonceVrfProof", "!=", "vrf.ProofSize"), ("nonceVrfOutput", "!=", "vrf.OutputSize")] ∧
+    GV.Gen.VrfConsts.proofSize = 80 ∧ GV.Gen.VrfConsts.outputSize = 64 ∧
+    GV.Gen.VrfConsts.publicKeySize = 32 ∧ GV.Gen.KesConsts.cardanoKesSignatureSize = 448 ∧
+    GV.Gen.KesConsts.publicKeySize = 32 := by
+  decide
+
 /-! ### non-vacuity on the symbolic instance -/
 open GV.Model.HeaderSym
 
@@ -198,8 +369,14 @@ example : ∀ sk t m, t < 64 → exP.kesVerify (exP.kesPk sk) t m (exP.kesSign s
 example : ∀ vk t m σ, exP.kesVerify vk t m σ = true →
     ∃ sk, vk = exP.kesPk (T.atom sk) ∧ σ = exP.kesSign (T.atom sk) t m := by
   intro vk t m σ h
-  cases vk <;> cases σ <;> simp [exP, sym, skOf] at h ⊢
-  obtain ⟨⟨⟨h1, h2⟩, h3⟩, _⟩ := h
-  exact ⟨h1.symm, h2.symm, h3.symm⟩
+  cases vk with
+  | kpk s =>
+    cases σ with
+    | ksg s' t' m' =>
+      simp [exP, sym, skOf] at h ⊢
+      obtain ⟨⟨⟨h1, h2⟩, h3⟩, _⟩ := h
+      exact ⟨h1.symm, h2.symm, h3.symm⟩
+    | _ => simp [exP, sym] at h
+  | _ => simp [exP, sym] at h
 
 end GV.Props.C40
